@@ -94,12 +94,17 @@ def _write(self, full_path, iterator, mode, encoding=None):
             if count == 10:
                 raise
             continue
-        with writer:
-            size = 0
-            for chunk in iterator:
-                size += len(chunk)
-                writer.write(chunk)
-            return size
+        try:
+            with writer:
+                size = 0
+                for chunk in iterator:
+                    size += len(chunk)
+                    writer.write(chunk)
+                return size
+        except BaseException:
+            with cl.suppress(OSError):
+                os.remove(full_path)
+            raise
 '''
 
 T_FETCH = '''
@@ -350,7 +355,9 @@ Definition store_plan_of (min_file_size : Z) (pkv : pyval -> list Z) (value : py
         err(h['__Hopen__'], 'unsupported newline argument in _write', fname)
     out.append('(* Disk._write: newline= argument of the open() used for writing, given whether an encoding is passed *)\n')
     out.append('Definition write_newline : bool -> nlarg := %s.\n' % wnl)
-    out.append('Definition write_tries : Z := 10.\n\n')
+    out.append('Definition write_tries : Z := 10.\n')
+    out.append('(* a failed write removes the partial file before re-raising (only the newline-aware form of _write has this) *)\n')
+    out.append('Definition write_failure_removes_partial : bool := %s.\n\n' % ('true' if nlexpr is not None else 'false'))
 
     # ---- fetch
     h = match_template(T_FETCH, find_func(tree, 'Disk.fetch', fname), fname)
